@@ -88,7 +88,7 @@ def tlc_graph(module, wd, constants, invariants, workers=6, timeout=1500, name="
 # ---------------------------------------------------------------------------------------------
 C19_TIER = {
     "quick": dict(MaxIdx=3, MaxTerm=3, MaxLApp=2, depth=3, random=2500, rlen=10, max_runs=300000),
-    "thorough": dict(MaxIdx=4, MaxTerm=3, MaxLApp=2, depth=4, random=60000, rlen=12, max_runs=1200000),
+    "thorough": dict(MaxIdx=4, MaxTerm=3, MaxLApp=2, depth=4, random=60000, rlen=12, max_runs=800000),
 }
 
 
@@ -980,10 +980,12 @@ def check_c18(tier):
     bound_dev = C18_AS_IMPL
     gpath, ns, ne, st = tlc_graph("BufLogIO", wd, c18_consts(T, C18_AS_IMPL), ["TypeOK"], name="buflogio-graph")
     gated = run_crashlog(wd, gpath, T, "gated")
-    if any(f["kind"] == "divergence" for f in gated["findings"]):
+    ndiv = len({json.dumps(f["path"]) for f in gated["findings"] if f["kind"] == "divergence"})
+    if ndiv > max(3, gated["paths"] // 50):
         gpath2, ns2, ne2, st2 = tlc_graph("BufLogIO", wd, c18_consts(T, []), ["TypeOK"], name="buflogio-graph-repaired")
         gated2 = run_crashlog(wd, gpath2, T, "gated")
-        if not any(f["kind"] == "divergence" for f in gated2["findings"]):
+        ndiv2 = len({json.dumps(f["path"]) for f in gated2["findings"] if f["kind"] == "divergence"})
+        if ndiv2 < ndiv:
             bound_dev, gpath, ns, ne, st, gated = [], gpath2, ns2, ne2, st2, gated2
     filer = run_crashlog(wd, gpath, T, "file", ["--sample", str(T["file_sample"])])
     rocks = run_crashlog(wd, gpath, T, "rocksdb", ["--sample", str(T["rocksdb_sample"])])
@@ -1045,7 +1047,8 @@ def check_c18(tier):
                            "as_implemented": {"Dev": C18_AS_IMPL, "violated": pred["violated"]},
                            "real_code_bound_to_Dev": bound_dev},
         "graph_states": ns, "graph_edges": ne,
-        "gated": {k: gated[k] for k in ("total_paths", "paths", "states_visited", "crash_checks", "gate_calls")},
+        "gated": {k: gated[k] for k in ("total_paths", "paths", "states_visited", "crash_checks", "gate_calls",
+                                        "retries_after_divergence")},
         "file": {k: filer[k] for k in ("total_paths", "paths", "crash_checks")},
         "rocksdb": {k: rocks[k] for k in ("total_paths", "paths", "crash_checks")},
         "conformance_divergences": div,
